@@ -319,6 +319,39 @@ def vReduceMeanAxes (g : DG) (o : DOp) : Option Fus :=
       else none
     | none => none
 
+/-- `RepeatInterleaveFusion` (fixed code, c04060d): shapes of `x` and of the Reshape output known and
+of equal rank, exactly one axis differs, both sizes fixed, output a multiple of input; the Unsqueeze
+inserts the new axis directly after the repeated axis; `x` is a float tensor. -/
+def vRepeatInterleave (g : DG) (o : DOp) : Option Fus :=
+  (tryMatch g repeatInterleavePat o.oid).bind fun s =>
+    match s.find "x", s.find "axes", s.find "expand_shape", s.find "reshape_shape", o.outs with
+    | some x, some axes, some es, some rs, [out] =>
+      match g.shape x, g.shape out with
+      | some inS, some outS =>
+        if inS.length != outS.length then none else
+        let diffs := ((List.range inS.length).zip (inS.zip outS)).filter fun (_, a, b) => a != b
+        match diffs with
+        | [(axis, a, b)] =>
+          match a.toNat?, b.toNat? with
+          | some fa, some fb =>
+            if fa == 0 || fb % fa != 0 then none else
+            match (g.consts.find? (·.id == axes)) with
+            | some c =>
+              if c.dtype == "i" && c.shape.length == 1 then
+                match c.ints with
+                | [ua] =>
+                  let ua := if ua < 0 then ua + (inS.length : Int) + 1 else ua
+                  if ua == (axis : Int) + 1 && g.dtype x == "f" then
+                    some (Fus.op "RepeatInterleave" [("axis", [(axis : Int)]), ("repeats", [((fb / fa : Nat) : Int)])] [some x] o.outs [es, rs])
+                  else none
+                | _ => none
+              else none
+            | none => none
+          | _, _ => none
+        | _ => none
+      | _, _ => none
+    | _, _, _, _, _ => none
+
 /-- `TransposeFusion`: a Transpose (with its one input present) feeding any input position of
 MatMul / FusedMatMul / Concat / Expand / Slice / Split is folded into a `TransformInputs(<op>)`
 wrapper that permutes that input's view; no restriction on `perm` (absent = reverse the axes).
@@ -361,6 +394,7 @@ def visitorsMain : List (DG → DOp → Option Fus) :=
         -- the fused operator inherits `flush_nans_to_zero` from the Softmax it replaces
         if lastAxis g sm softmaxAxis then some [("flush", [((g.op? sm).map fun so => attr1 so "flush" 0).getD 0])] else none
       | none => none,
+    vRepeatInterleave,
     vTranspose ]
 
 /-! ## apply_fusion -/
@@ -470,7 +504,7 @@ def applyFusions (g : DG) (visitors : List (DG → DOp → Option Fus)) : DG × 
 
 def knownTypes : List String :=
   ["Add", "Sub", "Mul", "Div", "Identity", "Cast", "Neg", "Abs", "Relu", "Sigmoid", "Erf", "Tanh", "Pow", "Sqrt",
-   "Reciprocal", "ReduceMean", "Softmax", "IsNaN", "Where", "MatMul", "If", "Transpose", "Concat", "Expand", "Slice", "Split"]
+   "Reciprocal", "ReduceMean", "Softmax", "IsNaN", "Where", "MatMul", "If", "Transpose", "Concat", "Expand", "Slice", "Split", "Unsqueeze", "Reshape"]
 
 def isConstV (g : DG) (v : Nat) : Bool := g.consts.any (·.id == v)
 
@@ -504,6 +538,8 @@ def attrText (o : DOp) : String :=
   else if o.ty == "Softmax" then
     "{axis=" ++ toString (attr1 o "axis" (-1)) ++ ",flush=" ++ toString (attr1 o "flush" 0) ++ "}"
   else if o.ty == "AddSoftmax" then "{flush=" ++ toString (attr1 o "flush" 0) ++ "}"
+  else if o.ty == "RepeatInterleave" then
+    "{axis=" ++ toString (attr1 o "axis" 0) ++ ",repeats=" ++ toString (attr1 o "repeats" 0) ++ "}"
   else if o.ty.startsWith "TransformInputs(" then
     let parts := (o.attrs.filter fun kv => kv.1.startsWith "tr").map fun (k, perm) =>
       (k.drop 2).toString ++ ":" ++ (if perm == [-1] then "rev" else ".".intercalate (perm.map toString))
@@ -535,6 +571,8 @@ def sideConditionsOk (g : DG) : Bool :=
 def optimize (g : DG) : Option DG :=
   if g.hasK then none
   else if g.ops.any (fun o => !knownTypes.contains o.ty) then none
+  -- GroupedQueryAttentionMatMulFusion (MatMul over a RepeatInterleave) is not modelled
+  else if g.ops.any (fun o => o.ty == "Reshape") && g.ops.any (fun o => o.ty == "MatMul") then none
   else
     let (g, _) := applyFusions g visitorsEarly
     if constPropFires g then none
